@@ -216,6 +216,8 @@ type Interp struct {
 	ex           *pathExec // current path (nil during init)
 	initMode     bool
 	initWarn     map[string]int
+	customValidators map[string]value // validate tag -> the validator.Func goflow registered for it
+	vfr          *frame              // frame custom validators are called from
 	steps        int64
 	budget       int64
 	depth        int
